@@ -140,9 +140,39 @@ def stage_boundary(ctx):
     hyp_drive(ctx, strat, judge, 60 if ctx.tier == "quick" else 1500)
 
 
+_NODES = []
+
+
+def _series_nodes():
+    """Geodetic latitudes (degrees) at which the harmonics sin(2k*lat) of a latitude series vanish or peak: multiples of
+    7.5 degrees of geodetic latitude and of authalic latitude (the latter through the closed form of refgeo)."""
+    if not _NODES:
+        for k in range(-11, 12):
+            _NODES.append(7.5 * k)
+            tha = math.radians(90.0 - 7.5 * k)                       # authalic colatitude
+            _NODES.append(90.0 - math.degrees(refgeo.geod_colat_from_auth_colat(tha)))
+    return _NODES
+
+
+def stage_series_nodes(ctx):
+    """Deep cells on and next to the latitudes where terms of a trigonometric latitude series change sign: a series that
+    is truncated, reordered or summed differently shows its largest relative change there, in bands far thinner than
+    anything a latitude-uniform generator resolves."""
+    unit = st.floats(0, 1, allow_nan=False)
+
+    def mk(i, lon, u, side, exact, r):
+        lat = _series_nodes()[i]
+        if not exact:
+            lat += (1 if side else -1) * 10.0 ** (-11 + 7 * u)
+        return {"lon": lon, "lat": max(-90.0, min(90.0, lat)), "res": r, "src": "series_node"}
+    strat = st.builds(mk, st.integers(0, 45), st.floats(-180, 180, allow_nan=False), unit, st.booleans(), st.booleans(),
+                      st.sampled_from([18, 20, 22, 23, 24, 25, 26, 27, 28, 29]))
+    hyp_drive(ctx, strat, judge, 40 if ctx.tier == "quick" else 1500)
+
+
 def plan(tier):
     return [Stage("enum", 16, stage_enum, cost=8), Stage("meta", 1, stage_meta), Stage("hyp", 16, stage_hyp, cost=8),
-            Stage("boundary", 16, stage_boundary, cost=7)]
+            Stage("boundary", 16, stage_boundary, cost=7), Stage("series_nodes", 16, stage_series_nodes, cost=6)]
 
 
 def replay(rec, col):
